@@ -5,7 +5,9 @@ import Gomacro.EndToEnd
 `decode env w fuel wrapped t j`: the Go value `json.Unmarshal` builds from the document `j` at static
 type `t` (`none` = an error, or the "exhaustive switch" panic of the generated union code), with the
 generated `UnmarshalJSON` methods: `{"Kind", "Data"}` objects are read in wrapped positions and
-dispatched on the Kind; shadow structs read union fields through their wrappers.
+dispatched on the Kind; shadow structs read union fields through their wrappers; named slices and
+maps of unions are read element-wise through the wrapper into a freshly made container; `[]byte` is
+read from base64 text; a missing key leaves the zero value.
 `wt`: typing with exact structs (a dumped struct value lists exactly the serialised fields: the
 harness drops the fields `encoding/json` never writes before asking).
 The round-trip theorem is in `Props/C02E2E.lean`.
@@ -32,6 +34,45 @@ def decodeScalar (bk : BKind) (j : JVal) : Option GoVal :=
   | .str, .str s => some (.str s)
   | _, _ => none
 
+def isByteElem : Ty → Bool
+  | .basic g _ => g == "uint8" || g == "byte"
+  | _ => false
+
+def zeroScalar : BKind → GoVal
+  | .bool => .bool false
+  | .int => .int "0"
+  | .float => .float "0"
+  | _ => .str ""
+
+mutual
+/-- the zero value of a type (what a field keeps when its key is missing from the document), in the
+exact-struct form -/
+def zeroVal (env : Env) : Nat → Ty → GoVal
+  | 0, _ => .iface none
+  | fuel + 1, t =>
+    match t with
+    | .basic _ bk => zeroScalar bk
+    | .time _ => .time "0001-01-01T00:00:00Z"
+    | .arr n e =>
+      if n < 0 then (if isByteElem e then .bytes true "" else .list true true [])
+      else .list false false (List.replicate n.toNat (zeroVal env fuel e))
+    | .map _ _ => .map true []
+    | .ptr _ => .iface none
+    | .ref q =>
+      match env.find? q with
+      | none => .iface none
+      | some d =>
+        match d.body with
+        | .named u => zeroVal env fuel u
+        | .enum _ bk _ _ => zeroScalar bk
+        | .struct fs _ _ => .struct (zeroFields env fuel fs)
+        | .union _ => .iface none
+def zeroFields (env : Env) : Nat → List Field → List (String × GoVal)
+  | _, [] => []
+  | fuel, f :: fs =>
+    if isSer f then (f.name, zeroVal env fuel f.ty) :: zeroFields env fuel fs else zeroFields env fuel fs
+end
+
 mutual
 def decode (env : Env) (w : Wrappers) : Nat → Bool → Ty → JVal → Option GoVal
   | 0, _, _, _ => none
@@ -39,19 +80,31 @@ def decode (env : Env) (w : Wrappers) : Nat → Bool → Ty → JVal → Option 
     match t, j with
     | .basic _ bk, j => decodeScalar bk j
     | .time _, .str s => some (.time s)
-    | .arr n _, .null => if n < 0 then some (.list true true []) else none
+    | .arr n e, .null =>
+      if n < 0 then (if isByteElem e then some (.bytes true "") else some (.list true true [])) else none
+    | .arr n e, .str b => if n < 0 && isByteElem e then some (.bytes false b) else none
     | .arr n e, .arr l =>
-      (decodeList env w fuel e l).bind fun es =>
+      (decodeList env w fuel false e l).bind fun es =>
         if n < 0 then some (.list true false es)
         else if es.length == n.toNat then some (.list false false es) else none
     | .map _ _, .null => some (.map true [])
-    | .map k e, .obj kvs => (decodeEntries env w fuel k e kvs).map fun es => .map false es
+    | .map k e, .obj kvs => (decodeEntries env w fuel false k e kvs).map fun es => .map false es
     | .ref q, j =>
       match env.find? q with
       | none => none
       | some d =>
         match d.body, j with
-        | .named u, j => decode env w fuel false u j
+        | .named u, j =>
+          if w.nameds.contains q then
+            -- the generated methods of a named slice / map of unions: element-wise through the
+            -- wrapper, into a freshly made container
+            match u, j with
+            | .arr _ e, .arr l => (decodeList env w fuel true e l).map fun es => .list true false es
+            | .arr _ _, .null => some (.list true false [])
+            | .map k e, .obj kvs => (decodeEntries env w fuel true k e kvs).map fun es => .map false es
+            | .map _ _, .null => some (.map false [])
+            | _, _ => none
+          else decode env w fuel false u j
         | .enum _ bk _ _, j => decodeScalar bk j
         | .struct fs _ _, .obj kvs =>
           (decodeFields env w fuel (w.structs.contains q) fs kvs).map fun vals => .struct vals
@@ -65,26 +118,25 @@ def decode (env : Env) (w : Wrappers) : Nat → Bool → Ty → JVal → Option 
           else none
         | _, _ => none
     | _, _ => none
-def decodeList (env : Env) (w : Wrappers) : Nat → Ty → List JVal → Option (List GoVal)
-  | _, _, [] => some []
-  | fuel, e, x :: xs =>
-    match decode env w fuel false e x, decodeList env w fuel e xs with
+def decodeList (env : Env) (w : Wrappers) : Nat → Bool → Ty → List JVal → Option (List GoVal)
+  | _, _, _, [] => some []
+  | fuel, wr, e, x :: xs =>
+    match decode env w fuel wr e x, decodeList env w fuel wr e xs with
     | some v, some vs => some (v :: vs)
     | _, _ => none
-def decodeEntries (env : Env) (w : Wrappers) : Nat → Ty → Ty → List (String × JVal) → Option (List (GoVal × GoVal))
-  | _, _, _, [] => some []
-  | fuel, k, e, (s, x) :: rest =>
-    match decodeKey k s, decode env w fuel false e x, decodeEntries env w fuel k e rest with
+def decodeEntries (env : Env) (w : Wrappers) : Nat → Bool → Ty → Ty → List (String × JVal) → Option (List (GoVal × GoVal))
+  | _, _, _, _, [] => some []
+  | fuel, wr, k, e, (s, x) :: rest =>
+    match decodeKey k s, decode env w fuel wr e x, decodeEntries env w fuel wr k e rest with
     | some kv, some v, some vs => some ((kv, v) :: vs)
     | _, _, _ => none
-/-- the serialised fields, each read from its key (a missing key is an error here: the fragment has
-no omitempty) -/
+/-- the serialised fields, each read from its key; a field whose key is missing keeps its zero value -/
 def decodeFields (env : Env) (w : Wrappers) : Nat → Bool → List Field → List (String × JVal) → Option (List (String × GoVal))
   | _, _, [], _ => some []
   | fuel, shadow, f :: fs, kvs =>
     if isSer f then
       match kvs.lookup (fkey f) with
-      | none => none
+      | none => (decodeFields env w fuel shadow fs kvs).map fun vs => (f.name, zeroVal env fuel f.ty) :: vs
       | some x =>
         match decode env w fuel (shadow && isUnionTy env f.ty) f.ty x, decodeFields env w fuel shadow fs kvs with
         | some v, some vs => some ((f.name, v) :: vs)
@@ -112,7 +164,9 @@ def wt (env : Env) : Nat → Ty → GoVal → Bool
     | .basic _ .float, .float _ => true
     | .basic _ .str, .str _ => true
     | .time _, .time _ => true
+    | .arr n e, .bytes isNil b => decide (n < 0) && isByteElem e && (!isNil || b == "")
     | .arr n e, .list isSlice isNil es =>
+      !(decide (n < 0) && isByteElem e) &&
       (isSlice == decide (n < 0)) && (n < 0 || es.length == n.toNat) && (!isNil || (isSlice && es.isEmpty)) && wtAll env fuel e es
     | .map k e, .map isNil kvs => (!isNil || kvs.isEmpty) && wtEntries env fuel k e kvs
     | .ref q, v =>
@@ -165,6 +219,84 @@ def fragmentRTB (env : Env) (w : Wrappers) (ds : List Decl) : Bool :=
   ds.all (fun d => decide (env.find? d.q = some d)) &&
   ds.all (fun d => ((rtChildTys d).flatMap Ty.refs).all fun q => ds.any fun d' => d'.q == q) &&
   ds.all (declOk env w)
+
+/-! ### the larger fragment, modulo nil -/
+
+mutual
+/-- deep equality in which a nil and an empty slice or map count as equal (the equality of C02) -/
+def eqNil : GoVal → GoVal → Bool
+  | .bool a, .bool b => a == b
+  | .int a, .int b => a == b
+  | .float a, .float b => a == b
+  | .str a, .str b => a == b
+  | .time a, .time b => a == b
+  | .list s _ es, .list s' _ es' => s == s' && eqNilList es es'
+  | .bytes _ b, .bytes _ b' => b == b'
+  | .map _ kvs, .map _ kvs' => eqNilEntries kvs kvs'
+  | .struct fs, .struct fs' => eqNilFields fs fs'
+  | .iface none, .iface none => true
+  | .iface (some (n, v)), .iface (some (n', v')) => n == n' && eqNil v v'
+  | _, _ => false
+def eqNilList : List GoVal → List GoVal → Bool
+  | [], [] => true
+  | a :: as, b :: bs => eqNil a b && eqNilList as bs
+  | _, _ => false
+def eqNilEntries : List (GoVal × GoVal) → List (GoVal × GoVal) → Bool
+  | [], [] => true
+  | (k, a) :: as, (k', b) :: bs => eqNil k k' && eqNil a b && eqNilEntries as bs
+  | _, _ => false
+def eqNilFields : List (String × GoVal) → List (String × GoVal) → Bool
+  | [], [] => true
+  | (k, a) :: as, (k', b) :: bs => k == k' && eqNil a b && eqNilFields as bs
+  | _, _ => false
+end
+
+/-- anonymous shapes the decoder model covers: no pointers, string / integer map keys -/
+def shapeRT : Ty → Bool
+  | .arr _ e => shapeRT e
+  | .map k e => (match k with | .basic _ .str => true | .basic _ .int => true | _ => false) && shapeRT e
+  | .ptr _ => false
+  | .basic _ .none => false
+  | _ => true
+
+/-- a field without the `string` option, under a key encoding/json accepts -/
+def fieldOkN (f : Field) : Bool :=
+  !(tagOptions f.tag).contains "string" &&
+  (Tags.namePart (Tags.get f.tag "json") == "" || Tags.isValidTag (Tags.namePart (Tags.get f.tag "json")))
+
+def isOmit (f : Field) : Bool := (tagOptions f.tag).contains "omitempty"
+
+/-- conditions on one declaration, for the round trip modulo nil: `omitempty`, `gomacro:"ignore"`,
+empty structs, `[]byte`, zero-length arrays and wrapped named slices / maps of unions are inside -/
+def declOkN (env : Env) (w : Wrappers) (d : Decl) : Bool :=
+  match d.body with
+  | .named u =>
+    if w.nameds.contains d.q then
+      (match u with
+       | .arr n (.ref uq) => decide (n < 0) && isUnionTy env (.ref uq)
+       | .map k (.ref uq) =>
+         (match k with | .basic _ .str => true | .basic _ .int => true | _ => false) && isUnionTy env (.ref uq)
+       | _ => false)
+    else shapeRT u && noUnion env u
+  | .enum _ _ _ _ => true
+  | .struct fs _ _ =>
+    (serialised fs).all (fun f => fieldOkN f && shapeRT f.ty && (isUnionTy env f.ty || noUnion env f.ty)) &&
+    ((serialised fs).map fun f => Tags.jsonName f.tag f.name).Nodup &&
+    ((serialised fs).map (·.name)).Nodup &&
+    ((serialised fs).any (fun f => isUnionTy env f.ty) → w.structs.contains d.q)
+  | .union ms =>
+    ms.all (fun m => noUnion env m && (match m with | .ref _ => true | _ => false)) &&
+    (ms.map (localNameOf env)).Nodup
+
+structure FragmentN (env : Env) (w : Wrappers) (ds : List Decl) : Prop where
+  found : ∀ d ∈ ds, env.find? d.q = some d
+  closed : ∀ d ∈ ds, ∀ q ∈ (rtChildTys d).flatMap Ty.refs, ∃ d' ∈ ds, d'.q = q
+  ok : ∀ d ∈ ds, declOkN env w d = true
+
+def fragmentNB (env : Env) (w : Wrappers) (ds : List Decl) : Bool :=
+  ds.all (fun d => decide (env.find? d.q = some d)) &&
+  ds.all (fun d => ((rtChildTys d).flatMap Ty.refs).all fun q => ds.any fun d' => d'.q == q) &&
+  ds.all (declOkN env w)
 
 /-! ### executable helpers of the driver -/
 
